@@ -571,13 +571,22 @@ def random_history(sess, n, *, names=8, p_snapshot=0.4, p_overlap=0.08, p_delete
             o = sess.snapshot(u, [live[f] for f in pick])
             desc.append('snapshot(%s,%s)->%s' % (u, pick, o.etype))
         elif x < p_snapshot + p_overlap and live:
-            # two clients take snapshots at the same time (README: non-destructive commands may overlap)
+            # two clients at the same time (README: non-destructive commands may overlap)
             us = [r.choice(sess.users), r.choice(sess.users)]
             picks = [r.sample(sorted(live), r.randrange(1, len(live) + 1)) for _ in us]
-            os_ = harness.run_parallel([
-                (lambda u=us[0], pk=picks[0]: sess.snapshot(u, [live[f] for f in pk], p=1)),
-                (lambda u=us[1], pk=picks[1]: sess.snapshot(u, [live[f] for f in pk], p=2))])
-            desc.append('overlap(snapshot(%s,%s) || snapshot(%s,%s))->%s' % (us[0], picks[0], us[1], picks[1], [getattr(o, 'etype', repr(o)) for o in os_]))
+            rd = sess.readable(us[1])
+            if rd and r.random() < 0.4:
+                # a restore of one existing snapshot by name while another client takes a snapshot
+                nm = sess.snapname[r.choice(rd)]
+                os_ = harness.run_parallel([
+                    (lambda u=us[0], pk=picks[0]: sess.snapshot(u, [live[f] for f in pk], p=1)),
+                    (lambda u=us[1], nm=nm: sess.restore(u, '^%s$' % nm))])
+                desc.append('overlap(snapshot(%s,%s) || restore(%s,%s))->%s' % (us[0], picks[0], us[1], nm[:8], [getattr(o, 'etype', repr(o)) for o in os_]))
+            else:
+                os_ = harness.run_parallel([
+                    (lambda u=us[0], pk=picks[0]: sess.snapshot(u, [live[f] for f in pk], p=1)),
+                    (lambda u=us[1], pk=picks[1]: sess.snapshot(u, [live[f] for f in pk], p=2))])
+                desc.append('overlap(snapshot(%s,%s) || snapshot(%s,%s))->%s' % (us[0], picks[0], us[1], picks[1], [getattr(o, 'etype', repr(o)) for o in os_]))
         elif x < p_snapshot + p_overlap + p_delete:
             listed = sess.listed()
             y = r.random()
